@@ -28,7 +28,7 @@ import (
 )
 
 const rule = "case = rapid-drawn (engine configuration with a 256 B - 4 KiB memtable, 2-6 keys, 2-8 client scripts of 30-300 " +
-	"put/delete/get calls with unique put values, optional maintenance goroutine calling FlushImMemTables/TriggerCompaction, " +
+	"put/delete/get calls with unique put values, every write handing over private key/value buffers that the client overwrites as soon as the call has returned, optional maintenance goroutine calling FlushImMemTables/TriggerCompaction, " +
 	"compaction interval 1 s or off, yield/sleep plan consumed cyclically at the verifhook sites of the chosen groups, optional " +
 	"long stall inside a log rotation); executed against the real engine from concurrent goroutines, every call recorded with " +
 	"monotonic invoke/return times; oracle = porcupine linearizability per key against a register (failed writes have no effect) " +
@@ -369,20 +369,29 @@ func runCase(c *Case) ([]Rec, *Stats, *Verdict) {
 			case "put":
 				r.W = valueID(cl, i)
 				val := valueBytes(r.W, o.Len)
+				// the client's own request buffers: private copies of key and value are
+				// handed over and overwritten as soon as the call has returned, the way a
+				// client that re-uses one encode buffer does; the write must have taken
+				// effect with the bytes it had at call time
+				kb := append([]byte{}, key...)
 				inflight.Add(1)
 				r.Call = now()
-				err := e.Put(key, val)
+				err := e.Put(kb, val)
 				r.Ret = now()
 				inflight.Add(-1)
+				scribble(kb)
+				scribble(val)
 				if err != nil {
 					r.Err = err.Error()
 				}
 			case "del":
 				inflight.Add(1)
+				kb := append([]byte{}, key...)
 				r.Call = now()
-				err := e.Delete(key)
+				err := e.Delete(kb)
 				r.Ret = now()
 				inflight.Add(-1)
+				scribble(kb)
 				if err != nil {
 					r.Err = err.Error()
 				}
@@ -663,4 +672,11 @@ func TestReplay(t *testing.T) {
 		return
 	}
 	ev.WriteReplayResult(ev.ReplayResult{File: f, Outcome: "pass"})
+}
+
+// scribble overwrites a request buffer after the call that used it has returned.
+func scribble(b []byte) {
+	for i := range b {
+		b[i] ^= 0xA5
+	}
 }
